@@ -44,8 +44,10 @@ TRUSTED = [
     "md_refs over-approximates what a method body can touch (identifier scan of validate()/embed() and of the "
     "base-class helpers it calls); the routines the callbacks are passed to are followed for evidence only",
     "extraction (ExtrOcamlBasic only) + OCaml 4.13.1 + coq/extract/c13_driver.ml (string conversion, printing)",
-    "harness/c13.cpp (universal counting callbacks, objects that are not indices, chain walker); built -O0 "
-    "without sanitizers (the TU instantiates 20 methods x 9 callback type triples)",
+    "harness/c13.cpp (universal counting callbacks, objects that are not indices, shifted index sequences, chain "
+    "walker, SLOTS dump that re-enacts initialize -> by-value cast -> method object and reads the protected slots "
+    "through `#define protected public` around tapkee's own headers); built -O0 without sanitizers (the TU "
+    "instantiates 20 methods x 9 callback type triples); the thorough tier adds a pass under ASan+UBSan",
     "numerical equality of the call forms is TESTED (bitwise, on the generated data sets), not proved: in the "
     "model all forms are the same function of the slot contents by construction",
     "randomness: std::rand seeded by srand and hook H1 (verif_shuffle_reseed) before every call; OpenMP pinned "
@@ -100,7 +102,7 @@ def default_params(rng, ds, variant):
          "nm": variant.get("nm", "brute"), "em": variant.get("em", "dense"),
          "perp": rng.choice([2.0, 3.0, min(4.0, (n - 1) / 3.0)]), "theta": variant.get("theta", 0.0),
          "maxit": 30, "lr": 0.5, "width": rng.choice([1.0, 2.5]), "ts": rng.choice([1, 2, 3]),
-         "speg": variant.get("speg", 1), "spen": 20, "sq": 0.9, "wd": 10,
+         "speg": variant.get("speg", 1), "spen": 20, "sq": 0.9, "wd": 20,
          "off": variant.get("off", rng.choice([3, 100, 1000]))}
     return p
 
